@@ -36,6 +36,8 @@ META = {
         "a level whose price is within 1e-14 relative of the cap (multiple x mark, mark / multiple) may be used or not",
         "a limit price within 0.1% of a level but not on it may be snapped to that level or refused (the suite "
         "relies on the snap); on a level = within 1e-12 relative (usd prices are converted with the underlying)",
+        "a limit price on a level that sits exactly on the price cap (so that the cap may exclude it) is, like a price "
+        "on a level beyond the cap, merely near the remaining levels: it may be snapped to one within 0.1% or refused",
         "an amount below one contract step may be refused; a buy that the cash cannot pay for may be refused",
         "cash equality up to the Decimal context (1e-30 relative); average prices within 1e-25 relative",
         "equity may value each position at the mark quantised to the fee step (half a fee step per contract)",
@@ -115,8 +117,12 @@ class BookWorld(W.DeribitWorld):
     marks (exact cap ties), BTC sizes on the 0.1 grid, marks with more digits than the fee step."""
 
     def __init__(self, rng, token, n_instr, hours, style, size_kind):
-        super().__init__(rng, hours=hours, n_instr=n_instr, token=token, closed_prob=0.0,
-                         size_kind=size_kind if size_kind in ("int", "float", "mixed") else "mixed", level_max=8)
+        for _ in range(20):
+            super().__init__(rng, hours=hours, n_instr=n_instr, token=token, closed_prob=0.0,
+                             size_kind=size_kind if size_kind in ("int", "float", "mixed") else "mixed", level_max=8)
+            # (worlds.DeribitWorld's name de-duplication can itself collide with a third instrument: draw again)
+            if not self.data.index.has_duplicates:
+                break
         self.style = style
         if style != "base":
             marks, asks, bids = [], [], []
